@@ -1,4 +1,9 @@
 import Driver.C04
+import Driver.C14
+import Driver.C19
+import Driver.C15
+import Driver.C13
+import Driver.C11
 import Driver.C10
 import Driver.C08
 import Driver.C07
@@ -18,6 +23,15 @@ partial def loop (h : IO.FS.Stream) (out : IO.FS.Stream) (f : String → String)
   loop h out f
 
 def modes : List (String × (String → String)) := [
+  ("c19r", C19.handleRender),
+  ("c19c", C19.handleCorpus),
+  ("c19", C19.handle),
+  ("c14forms", C14.handleForms),
+  ("c14", C14.handle),
+  ("c15", C15.handle),
+  ("c13", C13.handle),
+  ("c11exp", C11.handleExp),
+  ("c11tok", C11.handleTok),
   ("c10plan", C10.handlePlan),
   ("c10", C10.handle),
   ("c08lit", C08.handleLit),
